@@ -389,7 +389,7 @@ def map_fault_index(model_trace: Sequence[Tuple[str, str, int]], op: str, key: s
     return None
 
 
-def compare(real: Dict[str, Any], before: Dict[str, float], after: Dict[str, float], model: Dict[str, Any]) -> List[str]:
+def compare(real: Dict[str, Any], before: Dict[str, float], after: Dict[str, float], model: Dict[str, Any], nplan: int = 1) -> List[str]:
     """Differences between one real collection and the model's prediction (empty list = agree)."""
     diffs: List[str] = []
     if real["unknown"]:
@@ -413,12 +413,15 @@ def compare(real: Dict[str, Any], before: Dict[str, float], after: Dict[str, flo
         # aborted while reading lists / manifests: the code iterates Python sets, so WHICH files were read before the
         # failing one depends on hash order; compare the calls on each file, not how many files came first
         pr, pm = per_key(rt), per_key(mt)
-        for k in set(pr) & set(pm):
-            if pr[k] != pm[k] and not (all(f == 0 for _o, f in pr[k]) and all(f == 0 for _o, f in pm[k])):
-                diffs.append(f"calls on {k}: code={pr[k]} model={pm[k]}")
         faulted_r = {k: v for k, v in pr.items() if any(f for _o, f in v)}
         faulted_m = {k: v for k, v in pm.items() if any(f for _o, f in v)}
-        if faulted_r != faulted_m:
+        # with several planned faults in this phase, WHICH one is met first also depends on the iteration order
+        strict = nplan <= 1 or set(faulted_r) == set(faulted_m)
+        for k in set(pr) & set(pm):
+            clean = all(f == 0 for _o, f in pr[k]) and all(f == 0 for _o, f in pm[k])
+            if pr[k] != pm[k] and not clean and (strict or (k in faulted_r and k in faulted_m)):
+                diffs.append(f"calls on {k}: code={pr[k]} model={pm[k]}")
+        if faulted_r != faulted_m and strict:
             diffs.append(f"faulted calls differ: code={faulted_r} model={faulted_m}")
     elif sorted(rt) != sorted(mt):
         diffs.append(f"storage-call multiset differs: only code={sorted(set(rt) - set(mt))[:5]} only model={sorted(set(mt) - set(rt))[:5]} (len {len(rt)} vs {len(mt)})")
@@ -427,6 +430,12 @@ def compare(real: Dict[str, Any], before: Dict[str, float], after: Dict[str, flo
     elif [t for t in rt if t[0] == "L"] != [t for t in mt if t[0] == "L"]:
         diffs.append("order of the listing calls differs")
     return diffs
+
+
+def chunk_for(n: int) -> int:
+    """coq_eval chunk size giving at most 15 files: coqbuild.coq_eval only drains a job's output pipe once all jobs are
+    started, so more files than job slots with > 64 KB of output each would block."""
+    return max(1, -(-n // 15))
 
 
 def copy_table(src: str, dst: str) -> None:
